@@ -52,7 +52,7 @@ inductive Rel where
 /-- what the load-function entries do during this call -/
 inductive Fault where
   | none
-  | io       -- raise IOError: "try the next one"
+  | io       -- raise IOError or TemplateNotFound (what `prefixed()` raises): "try the next one"
   | other    -- raise something else: propagates
   deriving DecidableEq, Repr
 
@@ -283,5 +283,28 @@ def firstOnPath (fs : FS) (key : Key) : List Entry → Option (Loc × File)
     | some loc => match fs loc with
       | none => firstOnPath fs key rest
       | some f => some (loc, f)
+
+/-- what the walk over the search path comes to, load-function faults included -/
+inductive Found where
+  | nothing                      -- no path item has the name: TemplateNotFound
+  | raised                       -- a load function raised something that is not an IOError
+  | file (loc : Loc) (f : File)
+  deriving DecidableEq, Repr
+
+/-- specification side with load-function faults: a load function that raises IOError is passed
+    over ("try the next one"), one that raises anything else ends the walk, otherwise the first
+    path item under which the name exists decides -/
+def firstOnPathF (fs : FS) (fault : Fault) (key : Key) : List Entry → Found
+  | [] => .nothing
+  | e :: rest =>
+    let here : Found := match locate e key with
+      | none => firstOnPathF fs fault key rest
+      | some loc => match fs loc with
+        | none => firstOnPathF fs fault key rest
+        | some f => .file loc f
+    match e, fault with
+    | .fn _ _, .io => firstOnPathF fs fault key rest
+    | .fn _ _, .other => .raised
+    | _, _ => here
 
 end Genshi.Loader
